@@ -197,16 +197,23 @@ def _message_serialise_spec(src_text):
     """Attach the per-section loop contracts / anchors to Message::serialise's loops in source order."""
     i = src_text.index("fn serialise(&self, buffer: &mut WritableBuffer) -> Result<(), Error> {")
     body = src_text[i:src_text.index("\nimpl Header", i)]
-    order = re.findall(r"for (?:question|rr) in &self\.(questions|answers|authority|additional) \{", body)
+    found = re.findall(r"for (\w+) in &self\.(questions|answers|authority|additional) \{", body)
+    order = [sec for (_, sec) in found]
+    var = {sec: v for (v, sec) in found}
+    n_loops = len(re.findall(r"\bfor\s+[^{;]*?\bin\b", body))
+    if len(order) != n_loops or sorted(order) != sorted(set(order)):
+        # a loop this unit does not recognise (renamed variable, other shape): no contract to attach - UNDECIDED, not an alarm
+        from gen import GenError
+        raise GenError(f"Message::serialise: {n_loops} loops, {len(order)} recognised section loops {order}")
     spec = dict(SPECS["Message::serialise"])
-    spec["loops"] = {str(k): MSG_LOOPS[sec] for k, sec in enumerate(order)}
+    spec["loops"] = {str(k): dict(MSG_LOOPS[sec], entry=MSG_LOOPS[sec]["entry"].replace("*question ==", "*" + var[sec] + " ==").replace("*rr ==", "*" + var[sec] + " ==")) for k, sec in enumerate(order)}
     anchors = [{"after": "buffer.write_u16(arcount);", "proof": "let ghost hdr12__ = Ghost(buffer.bytes()); proof { broadcast use lemma_be16_div_mod; assert(buffer.bytes().len() == 12); }"}]
     k = 0
     for sec in order:
         if sec == "questions":
-            anchors.append({"after_re": r"question\.serialise\(buffer\);", "proof": MSG_STEP[sec]})
+            anchors.append({"after_re": r"\b" + var[sec] + r"\.serialise\(buffer\);", "proof": MSG_STEP[sec]})
         else:
-            anchors.append({"after_re": r"for rr in &self\." + sec + r" \{", "at": "before", "proof": MSG_START[sec]})
+            anchors.append({"after_re": r"for \w+ in &self\." + sec + r" \{", "at": "before", "proof": MSG_START[sec]})
             anchors.append({"after_re": r"\.serialise\(buffer\)\?;", "nth": k, "proof": MSG_STEP[sec]})
             k += 1
     anchors.append({"after": "Ok(())", "nth": -1, "at": "before", "proof": """proof {
